@@ -82,6 +82,9 @@ func backendProp(b backendSpec, meaning string) propFunc {
 			r.Clauses = append(r.Clauses, "helpers written once (E49): in a helper writer that runs once per function and keeps written-sets in the writer, no written-set (lookup; continue when present; insert; emit) is a map local to the call")
 			c.runHelperDedupScope(r, "helper.dedupscope", inPkgs("hlsl"))
 			r.floor("helper.dedupscope", 5)
+			r.Clauses = append(r.Clauses, "texel subscripts (E49): an HLSL writer function that writes the ArrayIndex operand of an image operation composes it with the coordinate in a vector constructor (or calls the coordinate helper that does)")
+			c.runImageCoordMerge(r, "image.coordmerge", "hlsl/internal/codegen")
+			r.floor("image.coordmerge", 2)
 			r.Clauses = append(r.Clauses, "workgroup size products (E50): a product of three or more factors drawn from the elements of one three-element array uses each index exactly once", "declarator extents (E50): a self-recursive function that prints one [extent] per array level prints its own extent before recursing into the element type")
 			c.runDimsProduct(r, "dims.product", inPkgs("hlsl"))
 			r.floor("dims.product", 1)
